@@ -269,7 +269,7 @@ class _CallPatchARM64(_CallPatchImpl):
         # For small values, let the assembler pick the best instruction to
         # load the immediate.
         if -0xFFFF <= value <= 0xFFFF:
-            yield f"mov {reg}, #0x{value:x}"
+            yield f"mov {reg}, #{value:#x}"
             return
 
         # TODO: This could be more optimal, particularly for negative numbers.
